@@ -18,7 +18,10 @@ run_demo() { # $1 = id, $2 = binary ; prints exit code of the demo
     C19-1) mkdir -p harper-stats/tests; cp $d/c19_chunked_reader.rs harper-stats/tests/; cargo test -q -p harper-stats --offline --test c19_chunked_reader >/dev/null 2>&1; echo $?; rm -rf harper-stats/tests ;;
     C19-2) mkdir -p harper-stats/tests; cp $d/c19_short_writes.rs harper-stats/tests/; cargo test -q -p harper-stats --offline --test c19_short_writes >/dev/null 2>&1; echo $?; rm -rf harper-stats/tests ;;
     C19-3) mkdir -p harper-ls/tests; cp $d/c19_ls_lifetimes.rs harper-ls/tests/; cargo test -q -p harper-ls --offline --test c19_ls_lifetimes >/dev/null 2>&1; echo $?; rm -rf harper-ls/tests ;;
-    C14-1|C16-1|C16-2|C16-3|C05-3) mkdir -p harper-wasm/tests; cp $d/*.rs harper-wasm/tests/; t=$(basename $(ls $d/*.rs | head -1) .rs); cargo test -q -p harper-wasm --offline -j 6 --test $t >/dev/null 2>&1; echo $?; rm -rf harper-wasm/tests ;;
+    C19b-1|C19b-2) mkdir -p harper-stats/tests; cp $d/*.rs harper-stats/tests/; t=$(basename $(ls $d/*.rs | head -1) .rs); cargo test -q -p harper-stats --offline -j 6 --test $t >/dev/null 2>&1; echo $?; rm -rf harper-stats/tests ;;
+    C19b-3) mkdir -p harper-ls/tests; cp $d/*.rs harper-ls/tests/; t=$(basename $(ls $d/*.rs | head -1) .rs); cargo test -q -p harper-ls --offline -j 6 --test $t >/dev/null 2>&1; echo $?; rm -rf harper-ls/tests ;;
+    C14b-3) cp $d/*.rs harper-core/tests/; t=$(basename $(ls $d/*.rs | head -1) .rs); cargo test -q -p harper-core --offline -j 6 --test $t >/dev/null 2>&1; echo $?; rm -f harper-core/tests/$t.rs ;;
+    C14-1|C16-1|C16-2|C16-3|C05-3|C16b-1|C16b-2|C16b-3|C14b-1|C14b-2) mkdir -p harper-wasm/tests; cp $d/*.rs harper-wasm/tests/; t=$(basename $(ls $d/*.rs | head -1) .rs); cargo test -q -p harper-wasm --offline -j 6 --test $t >/dev/null 2>&1; echo $?; rm -rf harper-wasm/tests ;;
     C14-2|C05-2) cp $d/*.rs harper-core/tests/; t=$(basename $(ls $d/*.rs | head -1) .rs); cargo test -q -p harper-core --offline -j 6 --test $t >/dev/null 2>&1; echo $?; rm -f harper-core/tests/$t.rs ;;
     C05-1) cp $d/c05_config_toggle.rs harper-core/tests/; cargo test -q -p harper-core --offline -j 6 --test c05_config_toggle >/dev/null 2>&1; echo $?; rm -f harper-core/tests/c05_config_toggle.rs ;;
     C14-3) mkdir -p harper-ls/tests; cp $d/*.rs harper-ls/tests/; t=$(basename $(ls $d/*.rs | head -1) .rs); cargo test -q -p harper-ls --offline -j 6 --test $t >/dev/null 2>&1; echo $?; rm -rf harper-ls/tests ;;
